@@ -38,7 +38,8 @@ def _present(idx, how):
     if how == "array":
         return np.array(idx, dtype=int)
     if how == "range":
-        return range(idx[0], idx[0] + len(idx))
+        step = (idx[1] - idx[0]) if len(idx) > 1 else 1
+        return range(idx[0], idx[-1] + (1 if step > 0 else -1), step)
     return list(idx)
 
 
@@ -251,6 +252,12 @@ def check(case):
 def _check_errors(sempler, case, fmean, fcov, ctx):
     kind = case["kind"]
     p = len(fcov)
+    if kind == "size_mismatch_shape":
+        # a covariance argument with p*p entries but not of shape (p, p)
+        shape = {"flat": (p * p,), "row": (1, p * p), "col": (p * p, 1), "half": (2, p * p // 2) if p % 2 == 0 and p > 2 else (p * p,)}[case["shape"]]
+        o = lib(sempler.NormalDistribution, fmean, np.asarray(fcov, dtype=float).reshape(shape))
+        must_raise(o, ValueError, "NormalDistribution(mean of size %d, covariance of shape %r)" % (p, shape))
+        return ["err_size_mismatch_shape_" + case["shape"]]
     if kind == "size_mismatch":
         o = lib(sempler.NormalDistribution, fmean[: case["cut"]], fcov)
         must_raise(o, ValueError, "NormalDistribution(mean of size %d, covariance %dx%d)" % (len(fmean[: case["cut"]]), p, p))
@@ -291,8 +298,8 @@ def _pres_for(draw, idx, allow_int=True):
     kinds = ["list", "list", "tuple", "array"]
     if len(idx) == 1 and allow_int:
         kinds.append("int")
-    if idx and list(idx) == list(range(idx[0], idx[0] + len(idx))):
-        kinds.append("range")
+    if idx and (len(idx) == 1 or (idx[1] != idx[0] and all(idx[k + 1] - idx[k] == idx[1] - idx[0] for k in range(len(idx) - 1)))):
+        kinds += ["range", "range"]          # any arithmetic progression, ascending or descending (e.g. range(3, -1, -1))
     return draw(st.sampled_from(kinds))
 
 
@@ -318,6 +325,10 @@ def cond_case(draw):
             "split": draw(st.integers(1, 3))}
     if draw(st.integers(0, 3)) == 0:
         case["cscale"] = [draw(st.sampled_from([0, 0, 1, -1, 9, -9, 17, -17])) for _ in range(p)]
+        if draw(st.integers(0, 3)) == 0:
+            # all coordinates in a minute (or huge) unit: determinants under- / overflow although nothing is ill-conditioned
+            base = draw(st.sampled_from([-95, -80, 70, 85]))
+            case["cscale"] = [base + draw(st.integers(-2, 2)) for _ in range(p)]
     if draw(st.integers(0, 3)) == 0:
         # integer-typed covariance (entries B B^T + d with integer B, d), possibly huge
         case["B"] = [[draw(st.integers(-3, 3)) for _ in row] for row in B]
@@ -336,7 +347,7 @@ def cond_case(draw):
 def error_case(draw):
     p, B, mean = draw(_dist(2, 6))
     d = [fstr(Fraction(draw(st.integers(1, 8)), 4)) for _ in range(p)]
-    kind = draw(st.sampled_from(["overlap", "xlen", "size_mismatch"]))
+    kind = draw(st.sampled_from(["overlap", "xlen", "size_mismatch", "size_mismatch_shape"]))
     order = draw(st.permutations(list(range(p))))
     ny = draw(st.integers(1, p - 1))
     nx = draw(st.integers(1, p - ny))
@@ -357,6 +368,8 @@ def error_case(draw):
             case["x"] = x[:-1]
         else:
             case["x"] = x + [draw(_q(16, 4)) for _ in range(delta)]
+    elif kind == "size_mismatch_shape":
+        case["shape"] = draw(st.sampled_from(["flat", "row", "col", "half"]))
     else:
         case["cut"] = draw(st.integers(1, p - 1)) if draw(st.booleans()) else p + 1
         if case["cut"] == p + 1:
